@@ -14,8 +14,8 @@ STUB = ["transport + API server (SimTransport/Server)", "event-loop clock (virtu
 
 def plan(tier: str, seed: int) -> dict:
     if tier == "quick":
-        return {"n_runs": 10_000_000, "budget_s": 60, "min_runs": 100, "minimise_s": 40}
-    return {"n_runs": 10_000_000, "budget_s": 900, "min_runs": 2000, "minimise_s": 90}
+        return {"n_runs": 10_000_000, "budget_s": 60, "min_runs": 30, "minimise_s": 40}
+    return {"n_runs": 10_000_000, "budget_s": 900, "min_runs": 500, "minimise_s": 90}
 
 
 def run_seed(args: dict, sandbox: str) -> dict:
@@ -38,7 +38,7 @@ def run_spec(args: dict, sandbox: str) -> dict:
             seen.add(k)
             violations.append({"kind": v["kind"], "locus": v["locus"], "detail": v["detail"]})
     prefix = "req|" if PROP == "C03" else "resp|"
-    states = [s for s in w["states"] if s.startswith(prefix)]
+    states = [s for s in w["states"] if s.startswith(prefix) or s.startswith("sched|")]
     return {
         "violations": violations[:6],
         "spec": spec,
@@ -65,7 +65,7 @@ RULE = (
     "call in the other flavour. Every recorded request is parsed the way a server would and compared with the wire reference model. "
     "Non-trivial/distinct = distinct (per-location parameter kinds + body kind, variant, sync/async, fault kind) tuples that were executed."
 )
-STATE_MEASURE = "distinct (operation shape = per-location multiset of parameter kinds + body kind) x variant x sync/async x fault kind"
+STATE_MEASURE = "sched|: distinct interleavings = completion orders of concurrently scheduled asyncio call groups (as permutations of start positions); req|: distinct (operation shape = per-location multiset of parameter kinds + body kind) x variant x sync/async x fault kind"
 ASSUMPTIONS = [
     "values are compared modulo the accepted serialisations of DESIGN A.2: the property fixes WHERE a value goes, not its spelling",
     "path/header/cookie canaries use unreserved characters only; query/body strings include reserved and non-ASCII characters",
